@@ -110,8 +110,8 @@ pub fn run(rep: &mut Report) {
     rep.generated("P32E2 structured bits: floats + text", g, || gen::bits(32), |&a, l| floats::<P32E2>(a, l).and_then(|_| text::<P32E2>(a, l)));
     match tier {
         Tier::Quick => {
-            let off = rep.cfg.seed % 8;
-            rep.lattice("P32E2 every 8th pattern: to_f64, to_f32, f64 round trip", 1 << 29, move |i, l| floats::<P32E2>(i * 8 + off, l));
+            let off = rep.cfg.seed % 2;
+            rep.lattice("P32E2 every 2nd pattern: to_f64, to_f32, f64 round trip", 1 << 31, move |i, l| floats::<P32E2>(i * 2 + off, l));
             let off = rep.cfg.seed % 512;
             rep.lattice("P32E2 every 512th pattern: Display/FromStr round trip", 1 << 23, move |i, l| text::<P32E2>(i * 512 + off, l));
         }
